@@ -7,7 +7,7 @@
 From Coq Require Import Reals Lra Lia List Bool ZArith NArith QArith Qreals Permutation Psatz.
 From Sdfx Require Import Num.Ops Num.RInst Num.QInst Geo.Vec Geo.Box Geo.BoxR Geo.NormR Geo.Mat
   Sdf.Union2 Sdf.Shape Sdf.ShapeR Sdf.EncloseR Sdf.EncloseComb Sdf.EncloseXform Sdf.EncloseSlice
-  Sdf.EncloseAll Sdf.Poly Sdf.PolyR Sdf.PolyTreeR Sdf.Reify Sdf.ReifyR.
+  Sdf.EncloseAll Sdf.Poly Sdf.PolyR Sdf.PolyTreeR Sdf.Reify Sdf.ReifyR Sdf.Prim2X Sdf.Prim2XR.
 Import ListNotations.
 
 Notation QS2 := (RShape2 QOps).
@@ -259,6 +259,56 @@ Definition mesh_topb (s : QS2) : bool :=
 Lemma mesh_topb_sound s : mesh_topb s = true -> mesh_top_nonneg (inj2 s).
 Proof. destruct s; cbn [mesh_topb]; intros H; try discriminate. cbn [inj2 rmap2 mesh_top_nonneg map_box2 b2max map_v2 vy]. apply qle0_sound, H. Qed.
 
+(* ------------------------------------------------------------ cams, flange, spiral, gear rack *)
+Definition qltb (x y : Q) : bool := negb (Qle_bool y x).
+Lemma qltb_sound x y : qltb x y = true -> Q2R x < Q2R y.
+Proof.
+  unfold qltb. intros H. apply negb_true_iff in H.
+  destruct (Qlt_le_dec x y) as [L|L]; [apply Qlt_Rlt, L|]. apply Qle_bool_iff in L. congruence.
+Qed.
+Local Open Scope Q_scope.
+Definition cam_okb (d b n : Q) : bool := qlt0 d && qle0 b && qle0 n && qltb (b - n) d && qltb (n - b) d.
+Definition prim2_wfb (p : Prim2 QOps) : bool :=
+  match p with
+  | PFlatFlankCam d b n => cam_okb d b n
+  | PThreeArcCam d b n f => cam_okb d b n && qltb (b + d + n) (2 * f)
+  | PFlange1 d c s => cam_okb d c s
+  | PArcSpiral _ _ _ _ d => qle0 d
+  end.
+Definition rack_okb (s : QS2) (length : Q) (bb : Box2 QOps) : bool :=
+  match s with
+  | RMesh2 _ tb => ordered2b bb && qleb (vx (b2min bb)) (- length) && qleb length (vx (b2max bb)) &&
+                   qleb (vy (b2min bb)) (vy (b2min tb)) && qleb (vy (b2max tb)) (vy (b2max bb))
+  | _ => false
+  end.
+Local Open Scope R_scope.
+Lemma cam_okb_sound d b n : cam_okb d b n = true -> cam_ok (Q2R d) (Q2R b) (Q2R n).
+Proof.
+  unfold cam_okb, cam_ok. intros H.
+  apply andb_true_iff in H; destruct H as [H L2]. apply andb_true_iff in H; destruct H as [H L1].
+  apply andb_true_iff in H; destruct H as [H Hn]. apply andb_true_iff in H; destruct H as [Hd Hb].
+  apply qlt0_sound in Hd. apply qle0_sound in Hb, Hn. apply qltb_sound in L1, L2. rewrite Q2R_minus in L1, L2.
+  repeat split; try assumption. apply Rabs_def1; lra.
+Qed.
+Lemma prim2_wfb_sound p : prim2_wfb p = true -> prim2_wf (map_prim2 (A := QOps) (B := ROps) Q2R p).
+Proof.
+  destruct p; cbn [prim2_wfb map_prim2 prim2_wf]; intros H.
+  - apply cam_okb_sound, H.
+  - apply andb_true_iff in H. destruct H as [H1 H2]. split; [apply cam_okb_sound, H1|].
+    apply qltb_sound in H2. rewrite Q2R_mult, !Q2R_plus in H2. replace (Q2R 2) with 2 in H2 by (unfold Q2R; cbn; lra). lra.
+  - apply cam_okb_sound, H.
+  - apply qle0_sound, H.
+Qed.
+Lemma rack_okb_sound s length bb : rack_okb s length bb = true -> rack_ok (inj2 s) (Q2R length) (injbox2 bb).
+Proof.
+  destruct s; cbn [rack_okb]; intros H; try discriminate. cbn [inj2 rmap2 rack_ok].
+  apply andb_true_iff in H; destruct H as [H Y2]. apply andb_true_iff in H; destruct H as [H Y1].
+  apply andb_true_iff in H; destruct H as [H X2]. apply andb_true_iff in H; destruct H as [H X1].
+  unfold ordered2b in H. apply andb_true_iff in H. destruct H as [Hx Hy].
+  apply qleb_sound in Hx, Hy, X1, X2, Y1, Y2. rewrite Q2R_opp in X1.
+  unfold rack_box_ok, ordered2, injbox2, map_box2, map_v2; cbn [b2min b2max vx vy]. repeat split; assumption.
+Qed.
+
 (* ------------------------------------------------------------ the classes *)
 Fixpoint cl2b_2 (s : QS2) : bool :=
   match s with
@@ -402,6 +452,8 @@ Fixpoint wfb2 (s : QS2) : bool :=
   | RRotateUnion2 mk s _ step => min_defb mk && wfb2 s && affine33b step && det33b step
   | RUnion2 mk l => min_defb mk && forallb wfb2 l
   | RSlice2 s _ n => wfb3 s && qlt0 (qdot3 n)
+  | RPrim2 p => prim2_wfb p
+  | RRack2 tooth _ length bb => wfb2 tooth && rack_okb tooth length bb
   end
 with wfb3 (s : QS3) : bool :=
   match s with
@@ -456,6 +508,8 @@ Proof.
       revert B. induction l as [|x l IHl]; cbn [forallb map allp]; intros B; [exact I|].
       apply andb_true_iff in B. destruct B as [Hx Hl]. split; [apply wfb2_sound, Hx | apply IHl, Hl].
     + split_and H. split; [apply wfb3_sound, H | apply qdot3_sound, B].
+    + apply prim2_wfb_sound, H.
+    + split_and H. split; [apply wfb2_sound, H | apply rack_okb_sound, B].
   - destruct s; cbn [wfb3 inj3 rmap3 rwf3]; intros H; try exact I.
     + split_and H. split; apply qle0_sound; assumption.
     + apply wfb2_sound, H.
